@@ -37,3 +37,9 @@ Definition spec_route (sc : escen) (ob : eobs) : bool :=
 
 Definition spec_C03 (sc : escen) (ob : eobs) : bool := spec_route sc ob && spec_lifecycle sc ob.
 Definition spec_C10 (sc : escen) (ob : eobs) : bool := spec_route sc ob && spec_lifecycle sc ob.
+
+(* the predicate the C18 check applies: no empty action on success (Spec/SpecC18.v) and, inside
+   flows, the step after a node whose post returned the empty action is the successor on the
+   DEFAULT action (routing of the flat machine, which normalises) *)
+From Flyt Require Import SpecC18.
+Definition spec_C18x (sc : escen) (ob : eobs) : bool := spec_C18 sc ob && spec_route sc ob.
